@@ -18,9 +18,17 @@ structure Store where
   dbs : List (Nat × DbSt)
   curDb : List (Nat × Nat)      -- cursor id ↦ database id
   readonly : Bool
+  /-- cursor id ↦ 1 (head) / 2 (tail): `cur->dbaddr` left behind by BEFORE_FIRST / AFTER_LAST and not yet used up by a
+  NEXT / PREV move (a seek by key leaves it in place) -/
+  curRes : List (Nat × Nat) := []
 deriving Repr
 
-def Store.empty : Store := ⟨[], [], false⟩
+def Store.empty : Store := { dbs := [], curDb := [], readonly := false }
+
+def Store.setRes (s : Store) (c r : Nat) : Store :=
+  { s with curRes := if r = 0 then s.curRes.filter (·.1 ≠ c) else (c, r) :: s.curRes.filter (·.1 ≠ c) }
+
+def Store.res (s : Store) (c : Nat) : Nat := ((s.curRes.find? (·.1 = c)).map (·.2)).getD 0
 
 def hasFlag (flags bit : Nat) : Bool := flags / bit % 2 = 1
 
@@ -250,7 +258,8 @@ def curOpen (s : Store) (c id : Nat) (op : String) (key : Option (Bytes × Nat))
   | none => (s, "cur invalid_args")
   | some d =>
     let reg (p : CPos) : Store × String :=
-      (setDb { s with curDb := (c, id) :: s.curDb } id { d with db := Kv.setCur d.db c p }, "cur ok")
+      (setDb { (s.setRes c (match p with | .head => 1 | .tail => 2 | _ => 0)) with curDb := (c, id) :: s.curDb } id
+        { d with db := Kv.setCur d.db c p }, "cur ok")
     match op, key with
     | "bf", none => reg .head
     | "al", none => reg .tail
@@ -271,16 +280,33 @@ def curClose (s : Store) (c : Nat) : Store × String :=
   | some id =>
     match getDb s id with
     | none => (s, "cur nocursor")
-    | some d => (setDb { s with curDb := s.curDb.filter (·.1 ≠ c) } id { d with db := Kv.closeCur d.db c }, "cur ok")
+    | some d => (setDb { (s.setRes c 0) with curDb := s.curDb.filter (·.1 ≠ c) } id { d with db := Kv.closeCur d.db c }, "cur ok")
+
+/-- `cur->cn == 0` with `cur->dbaddr` still set: a NEXT / PREV move starts from the head / tail again -/
+def resumePos (r : Nat) (p : CPos) : CPos :=
+  match p with
+  | .void => if r = 1 then .head else if r = 2 then .tail else .void
+  | p => p
 
 def curTo (s : Store) (c : Nat) (op : String) : Store × String :=
-  curOp s c fun d p =>
+  let r := s.res c
+  let (s', out) := curOp s c fun d p =>
     match op with
     | "bf" => (d, .head, "cur ok")
     | "al" => (d, .tail, "cur ok")
-    | "next" => let (p', ok) := Kv.curNext d.db p; (d, p', if ok then "cur ok" else "cur notfound")
-    | "prev" => let (p', ok) := Kv.curPrev d.db p; (d, p', if ok then "cur ok" else "cur notfound")
+    | "next" => let (p', ok) := Kv.curNext d.db (resumePos r p); (d, p', if ok then "cur ok" else "cur notfound")
+    | "prev" => let (p', ok) := Kv.curPrev d.db (resumePos r p); (d, p', if ok then "cur ok" else "cur notfound")
     | _ => (d, p, "cur invalid_state")
+  if out = "cur nocursor" then (s', out) else
+  match op with
+  | "bf" => (s'.setRes c 1, out)
+  | "al" => (s'.setRes c 2, out)
+  | "next" | "prev" =>
+    -- `dbaddr` is used up only when the move started without a node (`!cur->cn`)
+    (match (curOp s c fun d p => (d, p, match p with | .at .. => "at" | _ => "pseudo")).2 with
+     | "pseudo" => (s'.setRes c 0, out)
+     | _ => (s', out))
+  | _ => (s', out)
 
 def curToKey (s : Store) (c : Nat) (op : String) (k : Bytes) (cp : Nat) : Store × String :=
   match (s.curDb.find? (·.1 = c)).map (·.2) with
